@@ -676,6 +676,8 @@ def ops_for(elems, ei, ph, at_eof, ctx):
             out.append({'op': 'superfluous-argument', 'cls': CLS_SYNTAX, 'expect': SYN, 'edit': 'append-arg', 'text': w})
     if at_eof and ei == len(elems) - 1:
         for i, (text, kind) in enumerate(toks[:-1]):
+            if is_def and toks[1][0] == 'list' and text == '=':
+                continue  # `def list X =` is the empty list
             if kind == 'kw' and text in DEMANDING and not any(t[1] in ('heredoc',) for t in toks[:i]):
                 # cut behind a word that demands an argument; only sound at the very end of the file
                 out.append({'op': 'missing-argument', 'cls': CLS_SYNTAX, 'expect': SYN, 'edit': 'truncate-after', 'tok': i})
